@@ -52,7 +52,7 @@ fn typed(ctx: &mut Ctx, kind: &str, f: &S, src: &[u32], tgt: &[u32], input: &dyn
     }
 }
 
-fn typed_lax(ctx: &mut Ctx, kind: &str, f: &L, src: &[u32], tgt: &[u32], input: &dyn Fn() -> Value) {
+fn typed_lax<A: Lbl>(ctx: &mut Ctx, kind: &str, f: &LOh<u32, A>, src: &[u32], tgt: &[u32], input: &dyn Fn() -> Value) {
     ctx.count(&format!("op:{}", kind));
     if let Some(p) = walk_lax(ctx, kind, "any", f, input) {
         if !p.e.is_empty() {
@@ -78,7 +78,7 @@ impl C05 {
         let input = || json!({"f": show(&f), "g": show(&g), "h": show(&h), "a": a, "b": b});
         let (lf, lg, lh) = (to_strict(&f), to_strict(&g), to_strict(&h));
         let (fs, ft, gt, hs, ht) = (f.src_type(), f.tgt_type(), g.tgt_type(), h.src_type(), h.tgt_type());
-        let kind = r.below(34);
+        let kind = r.below(36);
         match kind {
             0 => { if let Some(x) = lib(ctx, "identity", "any", &input, || S::identity(sf(a.clone()))) { typed(ctx, "identity", &x, &a, &a, &input); } }
             1 => { if let Some(x) = lib(ctx, "twist", "any", &input, || <S as SymmetricMonoidal>::twist(sf(a.clone()), sf(b.clone()))) { typed(ctx, "twist", &x, &cat(&a, &b), &cat(&b, &a), &input); } }
@@ -218,6 +218,19 @@ impl C05 {
                     typed(ctx, "compose", &x, &fs, &gt, &input);
                 }
             }
+            34 | 35 => {
+                // the forgetful functors of the var interface, on arbitrary lax terms with var-labelled hyperedges
+                use open_hypergraphs::lax::var::forget::{forget, forget_monogamous};
+                let t = super::c19::C19.arbitrary_term(r);
+                if let Ok((st, _)) = t.strict() {
+                    let term = to_lax(&t);
+                    let input = || json!({"term": show_lax(&t)});
+                    let res = if kind == 34 { lib(ctx, "forget", "any", &input, || forget(&term)) } else { lib(ctx, "forget_monogamous", "any", &input, || forget_monogamous(&term)) };
+                    if let Some(x) = res {
+                        typed_lax(ctx, if kind == 34 { "forget" } else { "forget_monogamous" }, &x, &st.src_type(), &st.tgt_type(), &input);
+                    }
+                }
+            }
             32 => {
                 if let Some(x) = lib(ctx, "lax::Identity functor", "any", &input, || lax::functor::dyn_functor::Identity.map_arrow(&to_lax(&f.to_lax()))) { typed_lax(ctx, "lax_identity_functor", &x, &fs, &ft, &input); }
             }
@@ -345,7 +358,8 @@ impl C05 {
     }
 }
 
-const KINDS: [&str; 34] = [
+const KINDS: [&str; 36] = [
+    "forget", "forget_monogamous",
     "identity", "twist", "singleton", "tensor_operations", "tensor", "bitor", "dagger", "compose", "shr", "spider", "half_spider", "functor_map_arrow", "identity_functor",
     "optic_map_arrow", "optic_adapt", "to_strict", "from_strict", "lax::identity", "lax::twist", "lax::singleton", "lax::tensor", "lax::compose", "lax_compose", "lax::dagger",
     "tensor_assign", "quotient", "lax_functor_map_arrow", "lax_optic_map_adapted", "lax::spider", "Hypergraph::coproduct", "coequalize_vertices", "validate_on_result",
@@ -357,7 +371,7 @@ impl Monitor for C05 {
         "C05"
     }
     fn rule(&self) -> &'static str {
-        "cases: (a) a mixed workload over 34 kinds of public constructor / operation of the strict and lax modules (identity, twist, singleton, tensor_operations, tensor, |, dagger, compose, >>, \
+        "cases: (a) a mixed workload over 36 kinds of public constructor / operation of the strict and lax modules (identity, twist, singleton, tensor_operations, tensor, |, dagger, compose, >>, \
          spider, half_spider, functor and optic application incl. adapt, Identity functors, to_strict / from_strict, lax identity / twist / singleton / tensor / compose / lax_compose / dagger / \
          spider / tensor_assign / quotient, lax functor and lax optic entry points, hypergraph coproduct / discrete / coequalize_vertices, validate() on composites) on seeded well-formed arguments: \
          every returned diagram is walked by the deep well-formedness checker (segment counts, sizes summing to value length, size codomain = sum+1, every incidence and interface entry in range, \
